@@ -489,9 +489,9 @@ Section MidTumor.
 
   (** the part shared by both variants: central, ext.ipsi, noext.ipsi *)
   Lemma m_T_inv_common m' r : m_set_tumor_spread_params m a kw = (m', Some r) ->
-    exists qI m3,
+    exists qI qN m3,
       all_unit (plan (u_lk ipsi_kw) (u_tumor_items ei) a) = Some qI /\
-      ml_ei m3 = u_put_sel T ei qI /\ ml_ec m3 = ec /\ ml_nc m3 = nc /\
+      ml_ei m3 = u_put_sel T ei qI /\ ml_ni m3 = u_put_sel T ni qN /\ ml_ec m3 = ec /\ ml_nc m3 = nc /\
       ml_mixing m3 = ml_mixing m /\ ml_midext m3 = ml_midext m /\ ml_symL m3 = ml_symL m /\
       b_symL (ml_ext m3) = b_symL (ml_ext m) /\
       (let a3 := skipn (length (u_tumor_items ei)) a in
@@ -542,8 +542,8 @@ Section MidTumor.
     autorewrite with mlf in H. rewrite Hn1 in H.
     destruct (u_set_tumor_spread_params (b_ipsi (ml_noext m)) a ipsi_kw) as [ni' [a3|]] eqn:E3; [|discriminate].
     destruct (u_set_tumor_inv ni a ipsi_kw ni' a3 Hni E3) as (qN & _ & -> & ->). rewrite len_T_ni in H.
-    exists qI, (ml_with_noext (ml_with_ext m1 (b_with_ipsi (ml_ext m) (u_put_sel T ei qI))) (b_with_ipsi (ml_noext m) (u_put_sel T ni qN))).
-    split; [exact HqI|]. unfold ml_ei, ml_ec, ml_nc. autorewrite with mlf.
+    exists qI, qN, (ml_with_noext (ml_with_ext m1 (b_with_ipsi (ml_ext m) (u_put_sel T ei qI))) (b_with_ipsi (ml_noext m) (u_put_sel T ni qN))).
+    split; [exact HqI|]. unfold ml_ei, ml_ec, ml_nc, ml_ni. autorewrite with mlf.
     repeat split; try assumption; try reflexivity.
   Qed.
 End MidTumor.
@@ -569,11 +569,12 @@ Section MidTumor2.
                   | None => val_or (hd_error (skipn (length (u_tumor_items ei) + length (u_tumor_items nc)) a)) cur
                   end) = Some mix /\
       ml_ei m' = u_put_sel T ei qI /\ ml_nc m' = u_put_sel T nc qC /\ ml_ec m' = u_put_sel T ec qE /\
+      (exists qN, ml_ni m' = u_put_sel T (ml_ni m) qN) /\
       ml_mixing m' = Some mix /\ ml_midext m' = ml_midext m /\ ml_symL m' = ml_symL m /\
       b_symL (ml_ext m') = b_symL (ml_ext m) /\
       r = skipn (length (u_tumor_items ei) + length (u_tumor_items nc) + 1) a.
   Proof.
-    intros Hmix H. destruct (m_T_inv_common m a kw split glob Hok Hu m' r H) as (qI & m3 & HqI & Hei3 & Hec3 & Hnc3 & Hm3 & Hd3 & Hs3 & Hb3 & Ht).
+    intros Hmix H. destruct (m_T_inv_common m a kw split glob Hok Hu m' r H) as (qI & qN & m3 & HqI & Hei3 & Hni3 & Hec3 & Hnc3 & Hm3 & Hd3 & Hs3 & Hb3 & Ht).
     fold ei ec nc in Hei3, Hec3, Hnc3. cbv zeta in Ht. rewrite Hm3, Hmix in Ht.
     change (b_contra (ml_noext m3)) with (ml_nc m3) in Ht. rewrite Hnc3 in Ht.
     match type of Ht with context [u_set_tumor_spread_params nc ?x ?k] =>
@@ -585,9 +586,10 @@ Section MidTumor2.
     autorewrite with mlf in E6. change (b_contra (ml_ext m3)) with (ml_ec m3) in E6. rewrite Hec3 in E6.
     destruct (u_set_tumor_inv ec [] _ ec' r6 Hec E6) as (qE & _ & -> & _).
     injection Ht as <- <-. exists qI, qC, mix, qE.
-    rewrite skipn_skipn in Emix. subst ei ec nc. unfold ml_ei, ml_ec, ml_nc in *. autorewrite with mlf.
+    rewrite skipn_skipn in Emix. subst ei ec nc. unfold ml_ei, ml_ec, ml_nc, ml_ni in *. autorewrite with mlf.
     repeat split; try assumption; try reflexivity.
-    rewrite tl_skipn, skipn_skipn. f_equal. lia.
+    - exists qN. exact Hni3.
+    - rewrite tl_skipn, skipn_skipn. f_equal. lia.
   Qed.
 
   (** without the mixing parameter *)
@@ -600,11 +602,12 @@ Section MidTumor2.
       all_unit (plan (u_lk (obj_kwargs "contra" esplit glob)) (u_tumor_items ec)
                   (skipn (length (u_tumor_items ei) + length (u_tumor_items nc)) a)) = Some qE /\
       ml_ei m' = u_put_sel T ei qI /\ ml_nc m' = u_put_sel T nc qC /\ ml_ec m' = u_put_sel T ec qE /\
+      (exists qN, ml_ni m' = u_put_sel T (ml_ni m) qN) /\
       ml_mixing m' = None /\ ml_midext m' = ml_midext m /\ ml_symL m' = ml_symL m /\
       b_symL (ml_ext m') = b_symL (ml_ext m) /\
       r = skipn (length (u_tumor_items ei) + length (u_tumor_items nc) + length (u_tumor_items ec)) a.
   Proof.
-    intros Hmix H. destruct (m_T_inv_common m a kw split glob Hok Hu m' r H) as (qI & m3 & HqI & Hei3 & Hec3 & Hnc3 & Hm3 & Hd3 & Hs3 & Hb3 & Ht).
+    intros Hmix H. destruct (m_T_inv_common m a kw split glob Hok Hu m' r H) as (qI & qN & m3 & HqI & Hei3 & Hni3 & Hec3 & Hnc3 & Hm3 & Hd3 & Hs3 & Hb3 & Ht).
     fold ei ec nc in Hei3, Hec3, Hnc3. cbv zeta in Ht. rewrite Hm3, Hmix in Ht.
     destruct (unflatten_and_split (sub_kwargs "noext" split) ["contra"]) as [nsplit ng] eqn:En.
     change (b_contra (ml_noext m3)) with (ml_nc m3) in Ht. rewrite Hnc3 in Ht.
@@ -617,9 +620,571 @@ Section MidTumor2.
       destruct (u_set_tumor_spread_params ec x k) as [ec' [r6|]] eqn:E6 end; cbv beta iota zeta in Ht; [|discriminate].
     destruct (u_set_tumor_inv ec _ _ ec' r6 Hec E6) as (qE & HqE & -> & ->).
     injection Ht as <- <-. exists qI, qC, qE, nsplit, esplit, ng, eg.
-    rewrite skipn_skipn in HqE. subst ei ec nc. unfold ml_ei, ml_ec, ml_nc in *. autorewrite with mlf.
+    rewrite skipn_skipn in HqE. subst ei ec nc. unfold ml_ei, ml_ec, ml_nc, ml_ni in *. autorewrite with mlf.
     repeat split; try assumption; try reflexivity.
-    all: match goal with |- ?G => idtac G end.
-    rewrite !skipn_skipn. f_equal. lia.
+    - exists qN. exact Hni3.
+    - rewrite Hm3. exact Hmix.
+    - rewrite !skipn_skipn. f_equal. lia.
   Qed.
 End MidTumor2.
+
+(** * The LNL block *)
+Lemma leaf_id_dec (l l' : leaf_id) : {l = l'} + {l <> l'}.
+Proof. decide equality. Qed.
+Lemma ml_leaf_with_same m l u : ml_leaf m l <> None -> ml_leaf (ml_with_leaf m l u) l = Some u.
+Proof. destruct l; unfold ml_with_leaf, ml_leaf; destruct (ml_central m) eqn:E; cbn; rewrite ?E; cbn; congruence. Qed.
+Lemma ml_leaf_with_other m l l' u : l <> l' -> ml_leaf (ml_with_leaf m l u) l' = ml_leaf m l'.
+Proof. intros H. destruct l, l'; try congruence; unfold ml_with_leaf, ml_leaf; destruct (ml_central m) eqn:E; cbn; rewrite ?E; reflexivity. Qed.
+Lemma ml_with_leaf_frame m l u :
+  ml_mixing (ml_with_leaf m l u) = ml_mixing m /\ ml_midext (ml_with_leaf m l u) = ml_midext m /\
+  ml_symL (ml_with_leaf m l u) = ml_symL m /\ ml_unknown (ml_with_leaf m l u) = ml_unknown m /\
+  b_symL (ml_ext (ml_with_leaf m l u)) = b_symL (ml_ext m) /\
+  (ml_central (ml_with_leaf m l u) = None <-> ml_central m = None).
+Proof. destruct l; unfold ml_with_leaf; destruct (ml_central m) eqn:E; cbn; rewrite ?E; repeat split; congruence. Qed.
+
+Definition block_frame (m m' : midline) : Prop :=
+  ml_mixing m' = ml_mixing m /\ ml_midext m' = ml_midext m /\ ml_symL m' = ml_symL m /\ ml_unknown m' = ml_unknown m /\
+  b_symL (ml_ext m') = b_symL (ml_ext m) /\ (ml_central m' = None <-> ml_central m = None).
+Lemma block_frame_refl m : block_frame m m.
+Proof. unfold block_frame. tauto. Qed.
+Lemma block_frame_trans m1 m2 m3 : block_frame m1 m2 -> block_frame m2 m3 -> block_frame m1 m3.
+Proof. unfold block_frame. intros (A1 & A2 & A3 & A4 & A5 & A6) (B1 & B2 & B3 & B4 & B5 & B6). repeat split; try congruence; tauto. Qed.
+
+Lemma lnl_block_inv ls : NoDup ls -> forall m a kw m' r, m_set_lnl_block m ls a kw = (m', Some r) ->
+  (forall l u, In l ls -> ml_leaf m l = Some u ->
+     ml_leaf m' l = Some (fst (u_set_lnl_spread_params u a kw)) /\ snd (u_set_lnl_spread_params u a kw) <> None) /\
+  (forall l, ~ In l ls -> ml_leaf m' l = ml_leaf m l) /\
+  block_frame m m' /\
+  (forall front l u, ls = front ++ [l] -> ml_leaf m l = Some u -> snd (u_set_lnl_spread_params u a kw) = Some r).
+Proof.
+  induction ls as [|l rest IH]; intros Hnd m a kw m' r H.
+  - cbn in H. injection H as <- <-. split; [|split; [|split]].
+    + intros l0 u0 [].
+    + intros; reflexivity.
+    + apply block_frame_refl.
+    + intros front l0 u0 Hf. destruct front; discriminate.
+  - inversion Hnd as [|? ? Hni Hnd']; subst. cbn [m_set_lnl_block] in H.
+    destruct (ml_leaf m l) as [u|] eqn:El.
+    + destruct (u_set_lnl_spread_params u a kw) as [u' [a'|]] eqn:Eu; [|discriminate].
+      destruct rest as [|l2 rest'].
+      * injection H as <- <-. split; [|split; [|split]].
+        -- intros l0 u0 [<-|[]] Hl0. rewrite El in Hl0. injection Hl0 as <-. rewrite Eu. cbn [fst snd].
+           split; [apply ml_leaf_with_same; congruence | discriminate].
+        -- intros l0 Hl0. apply ml_leaf_with_other. intros ->. apply Hl0. left. reflexivity.
+        -- apply ml_with_leaf_frame.
+        -- intros front l0 u0 Hf Hl0. destruct front as [|x [|y f]]; try discriminate. injection Hf as <-.
+           rewrite El in Hl0. injection Hl0 as <-. rewrite Eu. reflexivity.
+      * destruct (IH Hnd' (ml_with_leaf m l u') a kw m' r H) as (P1 & P2 & P3 & P4). split; [|split; [|split]].
+        -- intros l0 u0 [<-|Hin] Hl0.
+           ++ rewrite El in Hl0. injection Hl0 as <-. rewrite Eu. cbn [fst snd]. split; [|discriminate].
+              rewrite (P2 l Hni). apply ml_leaf_with_same. congruence.
+           ++ apply (P1 l0 u0 Hin). rewrite ml_leaf_with_other; [exact Hl0 | intros ->; contradiction].
+        -- intros l0 Hl0. rewrite (P2 l0) by (intros Hin; apply Hl0; right; exact Hin).
+           apply ml_leaf_with_other. intros ->. apply Hl0. left. reflexivity.
+        -- apply (block_frame_trans m (ml_with_leaf m l u') m'); [apply ml_with_leaf_frame | exact P3].
+        -- intros front l0 u0 Hf Hl0. destruct front as [|x f]; [discriminate|]. injection Hf as <- Hf.
+           apply (P4 f l0 u0 Hf). rewrite ml_leaf_with_other; [exact Hl0|].
+           intros ->. apply Hni. rewrite Hf. apply in_app_iff. right. left. reflexivity.
+    + destruct (IH Hnd' m a kw m' r H) as (P1 & P2 & P3 & P4). split; [|split; [|split]].
+      * intros l0 u0 [<-|Hin] Hl0; [congruence | apply (P1 l0 u0 Hin Hl0)].
+      * intros l0 Hl0. apply P2. intros Hin. apply Hl0. right. exact Hin.
+      * exact P3.
+      * intros front l0 u0 Hf Hl0. destruct front as [|x f].
+        -- injection Hf as <- Hf. congruence.
+        -- injection Hf as <- Hf. apply (P4 f l0 u0 Hf Hl0).
+Qed.
+
+Section MidLnl.
+  Variables (m : midline) (a : args) (kw : kwargs) (split : list (string * kwargs)) (glob : kwargs).
+  Hypothesis Hok : mid_set_ok m = true.
+  Hypothesis Hu : unflatten_and_split kw X4 = (split, glob).
+  Let ei := ml_ei m.
+  Let ec := ml_ec m.
+  Let ni := ml_ni m.
+  Let nc := ml_nc m.
+  Let Hok' : mid_names_ok m = true. Proof. unfold mid_set_ok in Hok. rewrite !andb_true_iff in Hok. apply Hok. Qed.
+  Let Hei : u_names_ok ei = true. Proof. apply (m_ok_parts m Hok'). Qed.
+  Let Hec : u_names_ok ec = true. Proof. apply (m_ok_parts m Hok'). Qed.
+  Let Hnc : u_names_ok nc = true. Proof. apply (m_ok_parts m Hok'). Qed.
+  Let Hni : u_names_ok ni = true. Proof. unfold mid_set_ok in Hok. rewrite !andb_true_iff in Hok. apply Hok. Qed.
+  Lemma len_L_ni : length (u_lnl_items ni) = length (u_lnl_items ei).
+  Proof.
+    unfold mid_set_ok, same_shape in Hok. rewrite !andb_true_iff in Hok. destruct Hok as [_ [Hb Hs]].
+    apply shape_eqb_shape in Hs. apply Nat.eqb_eq in Hb. fold ei ni in Hs, Hb.
+    rewrite <- (map_length fst (u_lnl_items ni)), <- (map_length fst (u_lnl_items ei)). f_equal.
+    unfold u_lnl_items, u_tri, g_tri. rewrite Hb. symmetry. apply shape_sel_keys; [apply kind_sel_lnl | exact Hs].
+  Qed.
+
+  Definition kwI : kwargs := if ml_symL m then glob else obj_kwargs "ipsi" split glob.
+  Definition kwC : kwargs := if ml_symL m then glob else obj_kwargs "contra" split glob.
+  Definition argsC : args := if ml_symL m then a else skipn (length (u_lnl_items ei)) a.
+
+  Lemma m_L_inv m' r : m_set_lnl_spread_params m a kw = (m', Some r) ->
+    exists qI qE qN,
+      all_unit (plan (u_lk kwI) (u_lnl_items ei) a) = Some qI /\
+      all_unit (plan (u_lk kwC) (u_lnl_items ec) argsC) = Some qE /\
+      all_unit (plan (u_lk kwC) (u_lnl_items nc) argsC) = Some qN /\
+      ml_ei m' = u_put_sel L ei qI /\ ml_ec m' = u_put_sel L ec qE /\ ml_nc m' = u_put_sel L nc qN /\
+      block_frame m m' /\ r = skipn (length (u_lnl_items nc)) argsC.
+  Proof.
+    intros H. unfold m_set_lnl_spread_params in H. fold X4 in H. rewrite Hu in H. unfold kwI, kwC, argsC.
+    assert (Hl_ei : ml_leaf m LExtIpsi = Some ei) by reflexivity.
+    assert (Hl_ec : ml_leaf m LExtContra = Some ec) by reflexivity.
+    assert (Hl_ni : ml_leaf m LNoextIpsi = Some ni) by reflexivity.
+    assert (Hl_nc : ml_leaf m LNoextContra = Some nc) by reflexivity.
+    destruct (ml_symL m).
+    - (* symmetric: one block, the same arguments for all six leaves *)
+      assert (Hnd : NoDup [LCentralIpsi; LCentralContra; LExtIpsi; LExtContra; LNoextIpsi; LNoextContra])
+        by (repeat constructor; cbn; intuition discriminate).
+      destruct (lnl_block_inv _ Hnd m a glob m' r H) as (P1 & _ & P3 & P4).
+      destruct (P1 LExtIpsi ei) as [Q1 Q1']; [cbn; tauto | exact Hl_ei|].
+      destruct (P1 LExtContra ec) as [Q2 Q2']; [cbn; tauto | exact Hl_ec|].
+      destruct (P1 LNoextContra nc) as [Q3 Q3']; [cbn; tauto | exact Hl_nc|].
+      pose proof (P4 [LCentralIpsi; LCentralContra; LExtIpsi; LExtContra; LNoextIpsi] LNoextContra nc eq_refl Hl_nc) as Q4.
+      destruct (u_set_lnl_spread_params ei a glob) as [ei' [r1|]] eqn:E1; [|cbn [snd] in *; congruence].
+      destruct (u_set_lnl_spread_params ec a glob) as [ec' [r2|]] eqn:E2; [|cbn [snd] in *; congruence].
+      destruct (u_set_lnl_spread_params nc a glob) as [nc' [r3|]] eqn:E3; [|cbn [snd] in *; congruence].
+      destruct (u_set_lnl_inv ei a glob ei' r1 Hei E1) as (qI & HqI & -> & _).
+      destruct (u_set_lnl_inv ec a glob ec' r2 Hec E2) as (qE & HqE & -> & _).
+      destruct (u_set_lnl_inv nc a glob nc' r3 Hnc E3) as (qN & HqN & -> & ->).
+      cbn [fst snd] in *. exists qI, qE, qN. injection Q4 as <-.
+      repeat split; try assumption.
+      + change (ml_leaf m' LExtIpsi) with (Some (ml_ei m')) in Q1. congruence.
+      + change (ml_leaf m' LExtContra) with (Some (ml_ec m')) in Q2. congruence.
+      + change (ml_leaf m' LNoextContra) with (Some (ml_nc m')) in Q3. congruence.
+      + apply P3. + apply P3. + apply P3. + apply P3. + apply P3. + apply P3. + apply P3.
+    - (* asymmetric: ipsilateral leaves, then contralateral leaves with the remaining arguments *)
+      unfold andthen in H.
+      destruct (m_set_lnl_block m [LCentralIpsi; LExtIpsi; LNoextIpsi] a (obj_kwargs "ipsi" split glob)) as [m1 [a1|]] eqn:B1; [|discriminate].
+      assert (Hnd1 : NoDup [LCentralIpsi; LExtIpsi; LNoextIpsi]) by (repeat constructor; cbn; intuition discriminate).
+      assert (Hnd2 : NoDup [LCentralContra; LExtContra; LNoextContra]) by (repeat constructor; cbn; intuition discriminate).
+      destruct (lnl_block_inv _ Hnd1 m a _ m1 a1 B1) as (P1 & P2 & P3 & P4).
+      destruct (lnl_block_inv _ Hnd2 m1 a1 _ m' r H) as (R1 & R2 & R3 & R4).
+      destruct (P1 LExtIpsi ei) as [Q1 Q1']; [cbn; tauto | exact Hl_ei|].
+      pose proof (P4 [LCentralIpsi; LExtIpsi] LNoextIpsi ni eq_refl Hl_ni) as Q4.
+      assert (Hl_ec1 : ml_leaf m1 LExtContra = Some ec) by (rewrite P2; [exact Hl_ec | cbn; intuition discriminate]).
+      assert (Hl_nc1 : ml_leaf m1 LNoextContra = Some nc) by (rewrite P2; [exact Hl_nc | cbn; intuition discriminate]).
+      destruct (R1 LExtContra ec) as [Q2 Q2']; [cbn; tauto | exact Hl_ec1|].
+      destruct (R1 LNoextContra nc) as [Q3 Q3']; [cbn; tauto | exact Hl_nc1|].
+      pose proof (R4 [LCentralContra; LExtContra] LNoextContra nc eq_refl Hl_nc1) as Q5.
+      assert (Q1f : ml_leaf m' LExtIpsi = ml_leaf m1 LExtIpsi) by (apply R2; cbn; intuition discriminate).
+      destruct (u_set_lnl_spread_params ei a (obj_kwargs "ipsi" split glob)) as [ei' [r1|]] eqn:E1; [|cbn [snd] in *; congruence].
+      destruct (u_set_lnl_spread_params ni a (obj_kwargs "ipsi" split glob)) as [ni' [r4|]] eqn:E4; [|discriminate].
+      destruct (u_set_lnl_inv ei a _ ei' r1 Hei E1) as (qI & HqI & -> & _).
+      destruct (u_set_lnl_inv ni a _ ni' r4 Hni E4) as (qN' & _ & -> & ->).
+      cbn [fst snd] in Q4. injection Q4 as <-. rewrite len_L_ni in *.
+      destruct (u_set_lnl_spread_params ec (skipn (length (u_lnl_items ei)) a) (obj_kwargs "contra" split glob)) as [ec' [r2|]] eqn:E2; [|cbn [snd] in *; congruence].
+      destruct (u_set_lnl_spread_params nc (skipn (length (u_lnl_items ei)) a) (obj_kwargs "contra" split glob)) as [nc' [r3|]] eqn:E3; [|cbn [snd] in *; congruence].
+      destruct (u_set_lnl_inv ec _ _ ec' r2 Hec E2) as (qE & HqE & -> & _).
+      destruct (u_set_lnl_inv nc _ _ nc' r3 Hnc E3) as (qN & HqN & -> & ->).
+      cbn [fst snd] in *. injection Q5 as <-. exists qI, qE, qN.
+      repeat split; try assumption.
+      + rewrite Q1 in Q1f. change (ml_leaf m' LExtIpsi) with (Some (ml_ei m')) in Q1f. congruence.
+      + change (ml_leaf m' LExtContra) with (Some (ml_ec m')) in Q2. congruence.
+      + change (ml_leaf m' LNoextContra) with (Some (ml_nc m')) in Q3. congruence.
+      + apply (block_frame_trans m m1 m' P3 R3). + apply (block_frame_trans m m1 m' P3 R3).
+      + apply (block_frame_trans m m1 m' P3 R3). + apply (block_frame_trans m m1 m' P3 R3).
+      + apply (block_frame_trans m m1 m' P3 R3). + apply (block_frame_trans m m1 m' P3 R3).
+      + apply (block_frame_trans m m1 m' P3 R3).
+  Qed.
+End MidLnl.
+
+(** * The distribution step *)
+Lemma u_set_dist_graph u a kw : u_graph (fst (u_set_distribution_params u a kw)) = u_graph u.
+Proof.
+  unfold u_set_distribution_params. destruct (unflatten_and_split kw (map fst (u_dists u))) as [s g].
+  destruct (set_dists_for (u_maxt u) s g (u_dists u) a) as [ds o]. reflexivity.
+Qed.
+Lemma b_set_dist_graph b a kw :
+  u_graph (b_ipsi (fst (b_set_distribution_params b a kw))) = u_graph (b_ipsi b) /\
+  u_graph (b_contra (fst (b_set_distribution_params b a kw))) = u_graph (b_contra b) /\
+  b_symL (fst (b_set_distribution_params b a kw)) = b_symL b.
+Proof.
+  unfold b_set_distribution_params. destruct (side_kwargs kw) as [ikw ckw].
+  pose proof (u_set_dist_graph (b_ipsi b) a ikw) as Hi. pose proof (u_set_dist_graph (b_contra b) a ckw) as Hc.
+  destruct (u_set_distribution_params (b_ipsi b) a ikw) as [i' [r|]]; cbn [fst] in *.
+  - destruct (u_set_distribution_params (b_contra b) a ckw) as [c' o]. cbn [fst b_with b_ipsi b_contra b_symL] in *. auto.
+  - cbn [b_with b_ipsi b_contra b_symL]. auto.
+Qed.
+Lemma items_of_graph u u' : u_graph u' = u_graph u ->
+  u_tumor_items u' = u_tumor_items u /\ u_lnl_items u' = u_lnl_items u.
+Proof. intros H. unfold u_tumor_items, u_lnl_items, u_tri, u_edges. rewrite H. split; reflexivity. Qed.
+
+Definition XD (m : midline) : list string :=
+  ["ext"; "noext"] ++ (match ml_central m with Some _ => ["central"] | None => [] end)
+                   ++ (match ml_unknown m with Some _ => ["unknown"] | None => [] end).
+
+Lemma u_set_dist_inv u a kw u' r : u_names_ok u = true -> u_set_distribution_params u a kw = (u', Some r) ->
+  exists ds', dists_put (u_maxt u) (u_dists u) (plan (u_lk kw) (u_dist_items u) a) = Some ds' /\ u' = u_with_dists u ds'.
+Proof.
+  intros H E. pose proof (u_set_dist_spec u kw H a) as Hs. rewrite E in Hs.
+  destruct (dists_put _ _ _) as [ds'|]; [|cbn [snd] in Hs; discriminate]. injection Hs as -> _. exists ds'. split; reflexivity.
+Qed.
+Lemma with_dists_names_ok u new ds' : u_names_ok u = true ->
+  dists_put (u_maxt u) (u_dists u) new = Some ds' -> length new = length (u_dist_items u) -> u_names_ok (u_with_dists u ds') = true.
+Proof.
+  intros H HD Hl. destruct (dists_put_spec _ _ _ _ HD Hl) as (qD & _ & _ & Hn).
+  destruct (dists_put_shape _ _ _ _ HD Hl) as (Hk & Hko & _).
+  unfold u_names_ok, u_tstages, u_edge_names, u_edges in *. cbn [u_with_dists u_dists u_graph]. rewrite Hn, Hk, Hko. exact H.
+Qed.
+
+Lemma m_D_inv m a kw m' r : u_names_ok (ml_ei m) = true -> u_names_ok (ml_ec m) = true -> u_names_ok (ml_nc m) = true ->
+  m_set_distribution_params m a kw = (m', Some r) ->
+  exists split glob ikw ckw dsi dsc dsn,
+    unflatten_and_split kw (XD m) = (split, glob) /\ side_kwargs (obj_kwargs "ext" split glob) = (ikw, ckw) /\
+    dists_put (u_maxt (ml_ei m)) (u_dists (ml_ei m)) (plan (u_lk ikw) (u_dist_items (ml_ei m)) a) = Some dsi /\
+    ml_ei m' = u_with_dists (ml_ei m) dsi /\
+    ml_ec m' = u_with_dists (ml_ec m) dsc /\ u_names_ok (u_with_dists (ml_ec m) dsc) = true /\
+    ml_nc m' = u_with_dists (ml_nc m) dsn /\ u_names_ok (u_with_dists (ml_nc m) dsn) = true /\
+    ml_mixing m' = ml_mixing m /\ ml_midext m' = ml_midext m /\ ml_symL m' = ml_symL m /\
+    b_symL (ml_ext m') = b_symL (ml_ext m).
+Proof.
+  intros Hei Hec Hnc H. unfold m_set_distribution_params in H. fold (XD m) in H.
+  destruct (unflatten_and_split kw (XD m)) as [split glob] eqn:Hu.
+  destruct (b_set_distribution_params (ml_ext m) a (obj_kwargs "ext" split glob)) as [e' [r1|]] eqn:E1; [|discriminate].
+  autorewrite with mlf in H.
+  destruct (b_set_distribution_params (ml_noext m) a (obj_kwargs "noext" split glob)) as [n' [r2|]] eqn:E2; [|discriminate].
+  autorewrite with mlf in H.
+  assert (Hfin : ml_ext m' = e' /\ ml_noext m' = n' /\ ml_mixing m' = ml_mixing m /\ ml_midext m' = ml_midext m /\ ml_symL m' = ml_symL m).
+  { destruct (ml_central m) as [c|].
+    - destruct (b_set_distribution_params c a (obj_kwargs "central" split glob)) as [c' [r3|]]; cbv beta iota zeta in H; [|discriminate].
+      autorewrite with mlf in H. destruct (ml_unknown m) as [k|].
+      + destruct (b_set_distribution_params k a (obj_kwargs "unknown" split glob)) as [k' o]. cbv beta iota zeta in H. injection H as <- _. repeat split.
+      + injection H as <- _. repeat split.
+    - cbv beta iota zeta in H. destruct (ml_unknown m) as [k|] eqn:Ek.
+      + autorewrite with mlf in H. rewrite Ek in H.
+        destruct (b_set_distribution_params k a (obj_kwargs "unknown" split glob)) as [k' o]. cbv beta iota zeta in H. injection H as <- _. repeat split.
+      + autorewrite with mlf in H. rewrite Ek in H. injection H as <- _. repeat split. }
+  destruct Hfin as (He & Hn & Hm & Hd & Hs).
+  (* ext *)
+  unfold b_set_distribution_params in E1. destruct (side_kwargs (obj_kwargs "ext" split glob)) as [ikw ckw] eqn:Hsk.
+  destruct (u_set_distribution_params (b_ipsi (ml_ext m)) a ikw) as [i' [ri|]] eqn:Ei; [|discriminate].
+  destruct (u_set_dist_inv (ml_ei m) a ikw i' ri Hei Ei) as (dsi & Hdi & ->).
+  destruct (u_set_distribution_params (b_contra (ml_ext m)) a ckw) as [c' o] eqn:Ecx. injection E1 as <- ->.
+  destruct (u_set_dist_inv (ml_ec m) a ckw c' r1 Hec Ecx) as (dsc & Hdc & ->).
+  (* noext *)
+  unfold b_set_distribution_params in E2. destruct (side_kwargs (obj_kwargs "noext" split glob)) as [nikw nckw] eqn:Hskn.
+  destruct (u_set_distribution_params (b_ipsi (ml_noext m)) a nikw) as [ni' [rni|]] eqn:Eni; [|discriminate].
+  destruct (u_set_distribution_params (b_contra (ml_noext m)) a nckw) as [nc' o] eqn:Encx. injection E2 as <- ->.
+  destruct (u_set_dist_inv (ml_nc m) a nckw nc' r2 Hnc Encx) as (dsn & Hdn & ->).
+  exists split, glob, ikw, ckw, dsi, dsc, dsn. unfold ml_ei, ml_ec, ml_nc in *. rewrite He, Hn.
+  repeat split; try assumption; try reflexivity.
+  - apply (with_dists_names_ok _ _ _ Hec Hdc). apply plan_length.
+  - apply (with_dists_names_ok _ _ _ Hnc Hdn). apply plan_length.
+Qed.
+
+(** * Chaining the steps *)
+Lemma same_shape_put sel u1 u2 q1 q2 : same_shape (u_put_sel sel u1 q1) (u_put_sel sel u2 q2) = same_shape u1 u2.
+Proof.
+  unfold same_shape, u_put_sel, u_edges. cbn [u_with_graph u_graph with_edges g_edges g_base]. rewrite shape_eqb_put. reflexivity.
+Qed.
+Lemma mid_set_ok_after_T m m1 qI qE qC qN :
+  mid_set_ok m = true ->
+  ml_ei m1 = u_put_sel T (ml_ei m) qI -> ml_ec m1 = u_put_sel T (ml_ec m) qE -> ml_nc m1 = u_put_sel T (ml_nc m) qC ->
+  ml_ni m1 = u_put_sel T (ml_ni m) qN -> ml_symL m1 = ml_symL m -> b_symL (ml_ext m1) = b_symL (ml_ext m) ->
+  mid_set_ok m1 = true.
+Proof.
+  intros H H1 H2 H3 H4 H5 H6. unfold mid_set_ok, mid_names_ok in *. rewrite H1, H2, H3, H4, H5, H6.
+  rewrite !u_put_sel_names_ok, !same_shape_put. exact H.
+Qed.
+Lemma XD_props m : In "ext" (XD m) /\ forall s, In s (XD m) -> In s ["ext"; "noext"; "central"; "unknown"].
+Proof.
+  unfold XD. split; [left; reflexivity|]. intros s. destruct (ml_central m), (ml_unknown m); cbn; intuition.
+Qed.
+
+(** spread and distribution steps of a model with the mixing parameter *)
+Lemma m_chain_inv_mix m a kw m' r cur : mid_set_ok m = true -> ml_mixing m = Some cur ->
+  andthen (m_set_spread_params m a kw) (fun m1 a1 => m_set_distribution_params m1 a1 kw) = (m', Some r) ->
+  exists split glob qI qC mix qE qLi qLe qLn m2 dsplit dglob ikw ckw dsi,
+    let ei := ml_ei m in let ec := ml_ec m in let nc := ml_nc m in
+    let nT := length (u_tumor_items ei) + length (u_tumor_items nc) in
+    let a1 := skipn (nT + 1) a in
+    let aC := if ml_symL m then a1 else skipn (length (u_lnl_items ei)) a1 in
+    let kI := if ml_symL m then glob else obj_kwargs "ipsi" split glob in
+    let kC := if ml_symL m then glob else obj_kwargs "contra" split glob in
+    let a2 := skipn (length (u_lnl_items nc)) aC in
+    unflatten_and_split kw X4 = (split, glob) /\
+    all_unit (plan (u_lk (obj_kwargs "ipsi" split glob)) (u_tumor_items ei) a) = Some qI /\
+    all_unit (plan (u_lk (obj_kwargs "contra" split glob)) (u_tumor_items nc) (skipn (length (u_tumor_items ei)) a)) = Some qC /\
+    check_unit (match kw_get ["mixing"] glob with Some v => v | None => val_or (hd_error (skipn nT a)) cur end) = Some mix /\
+    all_unit (plan (u_lk kI) (u_lnl_items ei) a1) = Some qLi /\
+    all_unit (plan (u_lk kC) (u_lnl_items ec) aC) = Some qLe /\
+    all_unit (plan (u_lk kC) (u_lnl_items nc) aC) = Some qLn /\
+    unflatten_and_split kw (XD m2) = (dsplit, dglob) /\ side_kwargs (obj_kwargs "ext" dsplit dglob) = (ikw, ckw) /\
+    dists_put (u_maxt ei) (u_dists ei) (plan (u_lk ikw) (u_dist_items ei) a2) = Some dsi /\
+    ml_ei m' = u_with_dists (u_put_sel L (u_put_sel T ei qI) qLi) dsi /\
+    (exists dsc, ml_ec m' = u_with_dists (u_put_sel L (u_put_sel T ec qE) qLe) dsc /\ u_names_ok (ml_ec m') = true) /\
+    (exists dsn, ml_nc m' = u_with_dists (u_put_sel L (u_put_sel T nc qC) qLn) dsn /\ u_names_ok (ml_nc m') = true) /\
+    ml_mixing m' = Some mix /\ ml_midext m' = ml_midext m /\ ml_symL m' = ml_symL m /\ b_symL (ml_ext m') = b_symL (ml_ext m).
+Proof.
+  intros Hok Hmix H. unfold andthen, m_set_spread_params in H.
+  destruct (unflatten_and_split kw X4) as [split glob] eqn:Hu.
+  destruct (m_set_tumor_spread_params m a kw) as [m1 [a1|]] eqn:ET; cbn [andthen] in H; [|discriminate].
+  destruct (m_T_inv_mix m a kw split glob Hok Hu cur m1 a1 Hmix ET)
+    as (qI & qC & mix & qE & HqI & HqC & Hmx & Hei1 & Hnc1 & Hec1 & (qN & Hni1) & Hmix1 & Hd1 & Hs1 & Hb1 & ->).
+  assert (Hok1 : mid_set_ok m1 = true) by (apply (mid_set_ok_after_T m m1 qI qE qC qN); assumption).
+  destruct (m_set_lnl_spread_params m1 _ kw) as [m2 [a2|]] eqn:EL; [|discriminate].
+  destruct (m_L_inv m1 _ kw split glob Hok1 Hu m2 a2 EL) as (qLi & qLe & qLn & HqLi & HqLe & HqLn & Hei2 & Hec2 & Hnc2 & Hfr & ->).
+  unfold kwI, kwC, argsC in *. rewrite Hs1 in *. rewrite Hei1, Hec1, Hnc1 in *. rewrite !put_T_lnl_items in *.
+  assert (Hok2 : u_names_ok (ml_ei m2) = true /\ u_names_ok (ml_ec m2) = true /\ u_names_ok (ml_nc m2) = true).
+  { rewrite Hei2, Hec2, Hnc2, !u_put_sel_names_ok. unfold mid_set_ok, mid_names_ok in Hok. rewrite !andb_true_iff in Hok. repeat split; apply Hok. }
+  destruct Hok2 as (Hei2ok & Hec2ok & Hnc2ok).
+  destruct (m_D_inv m2 _ kw m' r Hei2ok Hec2ok Hnc2ok H)
+    as (dsplit & dglob & ikw & ckw & dsi & dsc & dsn & HuD & Hsk & Hdp & Hei3 & Hec3 & Hec3ok & Hnc3 & Hnc3ok & Hm3 & Hd3 & Hs3 & Hb3).
+  destruct Hfr as (F1 & F2 & F3 & F4 & F5 & F6).
+  exists split, glob, qI, qC, mix, qE, qLi, qLe, qLn, m2, dsplit, dglob, ikw, ckw, dsi. cbv zeta.
+  rewrite Hei2 in Hdp, Hei3. cbn [u_put_sel u_with_graph u_maxt u_dists] in Hdp.
+  change (u_dist_items (u_with_graph (u_put_sel T (ml_ei m) qI) _)) with (u_dist_items (ml_ei m)) in Hdp.
+  repeat split; try assumption.
+  - exists dsc. rewrite Hec3, Hec2. split; [reflexivity | rewrite <- Hec2; exact Hec3ok].
+  - exists dsn. rewrite Hnc3, Hnc2. split; [reflexivity | rewrite <- Hnc2; exact Hnc3ok].
+  - congruence. - congruence. - congruence. - congruence.
+Qed.
+
+(** ... and of a model without it *)
+Lemma m_chain_inv_nomix m a kw m' r : mid_set_ok m = true -> ml_mixing m = None ->
+  andthen (m_set_spread_params m a kw) (fun m1 a1 => m_set_distribution_params m1 a1 kw) = (m', Some r) ->
+  exists split glob nsplit esplit ng eg qI qC qE qLi qLe qLn m2 dsplit dglob ikw ckw dsi,
+    let ei := ml_ei m in let ec := ml_ec m in let nc := ml_nc m in
+    let nT := length (u_tumor_items ei) + length (u_tumor_items nc) + length (u_tumor_items ec) in
+    let a1 := skipn nT a in
+    let aC := if ml_symL m then a1 else skipn (length (u_lnl_items ei)) a1 in
+    let kI := if ml_symL m then glob else obj_kwargs "ipsi" split glob in
+    let kC := if ml_symL m then glob else obj_kwargs "contra" split glob in
+    let a2 := skipn (length (u_lnl_items nc)) aC in
+    unflatten_and_split kw X4 = (split, glob) /\
+    unflatten_and_split (sub_kwargs "noext" split) ["contra"] = (nsplit, ng) /\
+    unflatten_and_split (sub_kwargs "ext" split) ["contra"] = (esplit, eg) /\
+    all_unit (plan (u_lk (obj_kwargs "ipsi" split glob)) (u_tumor_items ei) a) = Some qI /\
+    all_unit (plan (u_lk (obj_kwargs "contra" nsplit glob)) (u_tumor_items nc) (skipn (length (u_tumor_items ei)) a)) = Some qC /\
+    all_unit (plan (u_lk (obj_kwargs "contra" esplit glob)) (u_tumor_items ec)
+                (skipn (length (u_tumor_items ei) + length (u_tumor_items nc)) a)) = Some qE /\
+    all_unit (plan (u_lk kI) (u_lnl_items ei) a1) = Some qLi /\
+    all_unit (plan (u_lk kC) (u_lnl_items ec) aC) = Some qLe /\
+    all_unit (plan (u_lk kC) (u_lnl_items nc) aC) = Some qLn /\
+    unflatten_and_split kw (XD m2) = (dsplit, dglob) /\ side_kwargs (obj_kwargs "ext" dsplit dglob) = (ikw, ckw) /\
+    dists_put (u_maxt ei) (u_dists ei) (plan (u_lk ikw) (u_dist_items ei) a2) = Some dsi /\
+    ml_ei m' = u_with_dists (u_put_sel L (u_put_sel T ei qI) qLi) dsi /\
+    (exists dsc, ml_ec m' = u_with_dists (u_put_sel L (u_put_sel T ec qE) qLe) dsc /\ u_names_ok (ml_ec m') = true) /\
+    (exists dsn, ml_nc m' = u_with_dists (u_put_sel L (u_put_sel T nc qC) qLn) dsn /\ u_names_ok (ml_nc m') = true) /\
+    ml_mixing m' = None /\ ml_midext m' = ml_midext m /\ ml_symL m' = ml_symL m /\ b_symL (ml_ext m') = b_symL (ml_ext m).
+Proof.
+  intros Hok Hmix H. unfold andthen, m_set_spread_params in H.
+  destruct (unflatten_and_split kw X4) as [split glob] eqn:Hu.
+  destruct (m_set_tumor_spread_params m a kw) as [m1 [a1|]] eqn:ET; cbn [andthen] in H; [|discriminate].
+  destruct (m_T_inv_nomix m a kw split glob Hok Hu m1 a1 Hmix ET)
+    as (qI & qC & qE & nsplit & esplit & ng & eg & Hun & Hue & HqI & HqC & HqE & Hei1 & Hnc1 & Hec1 & (qN & Hni1) & Hmix1 & Hd1 & Hs1 & Hb1 & ->).
+  assert (Hok1 : mid_set_ok m1 = true) by (apply (mid_set_ok_after_T m m1 qI qE qC qN); assumption).
+  destruct (m_set_lnl_spread_params m1 _ kw) as [m2 [a2|]] eqn:EL; [|discriminate].
+  destruct (m_L_inv m1 _ kw split glob Hok1 Hu m2 a2 EL) as (qLi & qLe & qLn & HqLi & HqLe & HqLn & Hei2 & Hec2 & Hnc2 & Hfr & ->).
+  unfold kwI, kwC, argsC in *. rewrite Hs1 in *. rewrite Hei1, Hec1, Hnc1 in *. rewrite !put_T_lnl_items in *.
+  assert (Hok2 : u_names_ok (ml_ei m2) = true /\ u_names_ok (ml_ec m2) = true /\ u_names_ok (ml_nc m2) = true).
+  { rewrite Hei2, Hec2, Hnc2, !u_put_sel_names_ok. unfold mid_set_ok, mid_names_ok in Hok. rewrite !andb_true_iff in Hok. repeat split; apply Hok. }
+  destruct Hok2 as (Hei2ok & Hec2ok & Hnc2ok).
+  destruct (m_D_inv m2 _ kw m' r Hei2ok Hec2ok Hnc2ok H)
+    as (dsplit & dglob & ikw & ckw & dsi & dsc & dsn & HuD & Hsk & Hdp & Hei3 & Hec3 & Hec3ok & Hnc3 & Hnc3ok & Hm3 & Hd3 & Hs3 & Hb3).
+  destruct Hfr as (F1 & F2 & F3 & F4 & F5 & F6).
+  exists split, glob, nsplit, esplit, ng, eg, qI, qC, qE, qLi, qLe, qLn, m2, dsplit, dglob, ikw, ckw, dsi. cbv zeta.
+  rewrite Hei2 in Hdp, Hei3. cbn [u_put_sel u_with_graph u_maxt u_dists] in Hdp.
+  change (u_dist_items (u_with_graph (u_put_sel T (ml_ei m) qI) _)) with (u_dist_items (ml_ei m)) in Hdp.
+  repeat split; try assumption.
+  - exists dsc. rewrite Hec3, Hec2. split; [reflexivity | rewrite <- Hec2; exact Hec3ok].
+  - exists dsn. rewrite Hnc3, Hnc2. split; [reflexivity | rewrite <- Hnc2; exact Hnc3ok].
+  - congruence. - congruence. - congruence. - congruence.
+Qed.
+
+(** * The leaves after a successful call *)
+Definition leaf_after (u : uni) (qT qL : list Qc) (ds : list (string * dist)) : uni :=
+  u_with_dists (u_put_sel L (u_put_sel T u qT) qL) ds.
+Lemma with_dists_tumor_items u ds : u_tumor_items (u_with_dists u ds) = u_tumor_items u. Proof. reflexivity. Qed.
+Lemma with_dists_lnl_items u ds : u_lnl_items (u_with_dists u ds) = u_lnl_items u. Proof. reflexivity. Qed.
+Lemma with_dists_dist_items u ds : u_dist_items (u_with_dists u ds) = dists_items ds. Proof. reflexivity. Qed.
+Lemma leaf_after_items u qT qL ds : length qT = length (u_tumor_items u) -> length qL = length (u_lnl_items u) ->
+  u_tumor_items (leaf_after u qT qL ds) = combine (map fst (u_tumor_items u)) qT /\
+  u_lnl_items (leaf_after u qT qL ds) = combine (map fst (u_lnl_items u)) qL /\
+  u_dist_items (leaf_after u qT qL ds) = dists_items ds.
+Proof.
+  intros H1 H2. unfold leaf_after. rewrite with_dists_tumor_items, with_dists_lnl_items, with_dists_dist_items.
+  repeat split.
+  - rewrite put_L_tumor_items. apply put_T_tumor_items, H1.
+  - rewrite put_L_lnl_items; rewrite put_T_lnl_items; [reflexivity | exact H2].
+Qed.
+Lemma leaf_after_shape u1 u2 q1 q2 q3 q4 d1 d2 :
+  same_shape (leaf_after u1 q1 q2 d1) (leaf_after u2 q3 q4 d2) = same_shape u1 u2.
+Proof.
+  unfold leaf_after, same_shape, u_put_sel, u_edges. cbn [u_with_dists u_with_graph u_graph with_edges g_edges g_base].
+  rewrite !shape_eqb_put. reflexivity.
+Qed.
+Lemma plan_lengths lk ps a qs : all_unit (plan lk ps a) = Some qs -> length qs = length ps.
+Proof. intros H. apply all_unit_length in H. rewrite plan_length in H. exact H. Qed.
+
+(** * Positional calls: how the arguments are consumed *)
+Lemma popat_mid {A} (l1 : list A) x l2 : popat (l1 ++ x :: l2) (Z.of_nat (length l1) + 1 - 1) = (l1, Some x, l2).
+Proof.
+  unfold popat. replace (Z.of_nat (length l1) + 1 - 1)%Z with (Z.of_nat (length l1)) by lia.
+  assert (H0 : (Z.of_nat (length l1) <? 0)%Z = false) by (apply Z.ltb_ge; lia). rewrite H0.
+  rewrite app_length. cbn [length].
+  assert (H1 : (Z.of_nat (length l1) >=? Z.of_nat (length l1 + S (length l2)))%Z = false) by (rewrite Z.geb_leb; apply Z.leb_gt; lia).
+  rewrite H0, H1, Nat2Z.id. rewrite firstn_app_len by reflexivity.
+  rewrite nth_error_app2, Nat.sub_diag by lia. cbn [nth_error].
+  replace (S (length l1)) with (length (l1 ++ [x])) by (rewrite app_length; cbn; lia).
+  replace (l1 ++ x :: l2) with ((l1 ++ [x]) ++ l2) by (rewrite <- app_assoc; reflexivity).
+  rewrite skipn_app_len by reflexivity. reflexivity.
+Qed.
+Lemma skipn_vals_app n w rest : n <= length w -> skipn n (vals w ++ rest) = vals (skipn n w) ++ rest.
+Proof.
+  intros H. rewrite skipn_app, vals_length. replace (n - length w) with 0 by lia. unfold vals. rewrite skipn_map. reflexivity.
+Qed.
+Lemma plan_none_prefix ps w rest : length ps <= length w -> plan (u_lk []) ps (vals w ++ rest) = vals (firstn (length ps) w).
+Proof.
+  intros H. rewrite <- (firstn_skipn (length ps) w) at 1. rewrite vals_app, <- app_assoc.
+  apply plan_no_kw; [intros; apply u_lk_nil | rewrite firstn_length; lia].
+Qed.
+Lemma all_unit_vals_inv q q' : all_unit (vals q) = Some q' -> q' = q.
+Proof. intros H. apply all_unit_Some_vals in H. destruct H as [H _]. apply vals_inj in H. symmetry. exact H. Qed.
+Lemma skipn_cons_nth {A} (l : list A) n d : n < length l -> skipn n l = nth n l d :: skipn (S n) l.
+Proof.
+  revert l. induction n as [|n IH]; intros [|x l] H; cbn [length] in H; try lia; [reflexivity|].
+  cbn [skipn nth]. apply IH. lia.
+Qed.
+Lemma chunk_decomp {A} (l : list A) n1 n2 : skipn n1 l = firstn n2 (skipn n1 l) ++ skipn (n1 + n2) l.
+Proof. rewrite <- skipn_skipn. symmetry. apply firstn_skipn. Qed.
+Lemma unflatten_nil X : unflatten_and_split [] X = ([], []).
+Proof. reflexivity. Qed.
+Lemma obj_kwargs_nil k : obj_kwargs k [] [] = [].
+Proof. reflexivity. Qed.
+Lemma side_kwargs_nil : side_kwargs [] = ([], []).
+Proof. reflexivity. Qed.
+
+Lemma m_set_params_unfold m a kw : mid_names_ok m = true ->
+  m_set_params m a kw =
+  (let '(before, last, after) := popat a (Z.of_nat (length (mid_items m)) - 1)%Z in
+   let mp := match kw_get ["midext"; "prob"] kw with Some v => Some v | None => last end in
+   let r0 := match mp with None => Some m | Some v => option_map (ml_with_midext m) (check_unit v) end in
+   match r0 with
+   | None => (m, None)
+   | Some m0 => andthen (m_set_spread_params m0 (before ++ after) kw) (fun m1 a1 => m_set_distribution_params m1 a1 kw)
+   end).
+Proof.
+  intros H. unfold m_set_params. rewrite (m_get_params_flat m H). unfold leaves. rewrite map_length. reflexivity.
+Qed.
+
+Lemma decomp5 (v0 : list Qc) a b c d : length v0 = a + (b + (1 + c)) + d ->
+  firstn a v0 ++ firstn b (skipn a v0) ++ [nth (a + b) v0 0%Qc] ++ firstn c (skipn (a + b + 1) v0)
+  ++ firstn d (skipn (a + b + 1 + c) v0) = v0.
+Proof.
+  intros H. rewrite <- (firstn_skipn a v0) at 6. f_equal.
+  rewrite (chunk_decomp v0 a b). f_equal.
+  rewrite (skipn_cons_nth v0 (a + b) 0%Qc) by lia. cbn [app]. f_equal.
+  replace (S (a + b)) with (a + b + 1) by lia.
+  rewrite (chunk_decomp v0 (a + b + 1) c). f_equal.
+  rewrite (chunk_decomp v0 (a + b + 1 + c) d). rewrite skipn_all2 by lia. rewrite app_nil_r. reflexivity.
+Qed.
+Lemma decomp5' (v0 : list Qc) a b c d e : length v0 = a + (b + (c + d)) + e ->
+  firstn a v0 ++ firstn b (skipn a v0) ++ firstn c (skipn (a + b) v0) ++ firstn d (skipn (a + b + c) v0)
+  ++ firstn e (skipn (a + b + c + d) v0) = v0.
+Proof.
+  intros H. rewrite <- (firstn_skipn a v0) at 6. f_equal.
+  rewrite (chunk_decomp v0 a b). f_equal.
+  rewrite (chunk_decomp v0 (a + b) c). f_equal.
+  rewrite (chunk_decomp v0 (a + b + c) d). f_equal.
+  rewrite (chunk_decomp v0 (a + b + c + d) e). rewrite skipn_all2 by lia. rewrite app_nil_r. reflexivity.
+Qed.
+
+(** names and validity of the model a successful call leaves behind *)
+Lemma mid_names_ok_final m m' qI qLi dsi qE qLe dsc qC qLn dsn newi :
+  mid_set_ok m = true ->
+  ml_ei m' = leaf_after (ml_ei m) qI qLi dsi -> ml_ec m' = leaf_after (ml_ec m) qE qLe dsc -> ml_nc m' = leaf_after (ml_nc m) qC qLn dsn ->
+  u_names_ok (ml_ec m') = true -> u_names_ok (ml_nc m') = true ->
+  dists_put (u_maxt (ml_ei m)) (u_dists (ml_ei m)) newi = Some dsi -> length newi = length (u_dist_items (ml_ei m)) ->
+  ml_symL m' = ml_symL m -> b_symL (ml_ext m') = b_symL (ml_ext m) ->
+  mid_names_ok m' = true.
+Proof.
+  intros Hok H1 H2 H3 H4 H5 HD Hl H6 H7. unfold mid_set_ok in Hok. rewrite !andb_true_iff in Hok. destruct Hok as [[Hn _] _].
+  unfold mid_names_ok in *. rewrite !andb_true_iff in *. destruct Hn as [[[[[A1 A2] A3] A4] A5] A6].
+  rewrite H4, H5, H6, H7. rewrite H1, H2, H3, !leaf_after_shape. repeat split; try assumption; try reflexivity.
+  unfold leaf_after. apply (with_dists_names_ok (u_put_sel L (u_put_sel T (ml_ei m) qI) qLi) newi dsi).
+  - rewrite !u_put_sel_names_ok. exact A1.
+  - exact HD.
+  - exact Hl.
+Qed.
+
+Theorem mid_set_get_positional : C10_mid_set_get_positional_stmt.
+Proof.
+  intros m v rest Hok HsymL Hl r Hr. subst r.
+  assert (Hok' : mid_names_ok m = true) by (unfold mid_set_ok in Hok; rewrite !andb_true_iff in Hok; apply Hok).
+  destruct (m_ok_parts m Hok') as (Hei & Hec & Hnc & _).
+  assert (HTnc : length (u_tumor_items (ml_nc m)) = length (u_tumor_items (ml_ei m)))
+    by (rewrite <- (map_length fst), (keys_T_nc m Hok'), map_length; reflexivity).
+  assert (HTec : length (u_tumor_items (ml_ec m)) = length (u_tumor_items (ml_ei m)))
+    by (rewrite <- (map_length fst), (keys_T_ec m Hok'), map_length; reflexivity).
+  assert (HLec : length (u_lnl_items (ml_ec m)) = length (u_lnl_items (ml_ei m)))
+    by (rewrite <- (map_length fst), (keys_L_ec m Hok'), map_length; reflexivity).
+  assert (HLnc : length (u_lnl_items (ml_nc m)) = length (u_lnl_items (ml_ei m))).
+  { destruct (m_ok_parts m Hok') as (_ & _ & _ & _ & _ & Hs & Ht & _).
+    rewrite <- (map_length fst (u_lnl_items (ml_nc m))), <- (map_length fst (u_lnl_items (ml_ei m))).
+    f_equal. unfold u_lnl_items. rewrite Ht. symmetry. apply shape_sel_keys; [apply kind_sel_lnl | exact Hs]. }
+  set (ei := ml_ei m) in *. set (ec := ml_ec m) in *. set (nc := ml_nc m) in *.
+  (* the last value is midext_prob *)
+  assert (Hn : length (mid_items m) = S (length (mid_spread_items m ++ u_dist_items ei)))
+    by (rewrite mid_items_split, !app_length; cbn [m_midext_item length]; fold ei; lia).
+  destruct (exists_last (l := v)) as (v0 & x & ->); [destruct v; [rewrite Hn in Hl; discriminate | discriminate]|].
+  rewrite app_length in Hl. cbn [length] in Hl.
+  rewrite (m_set_params_unfold m _ [] Hok') in Hr |- *.
+  replace (vals (v0 ++ [x]) ++ rest) with (vals v0 ++ V x :: rest) in * by (rewrite vals_app, <- app_assoc; reflexivity).
+  replace (Z.of_nat (length (mid_items m)) - 1)%Z with (Z.of_nat (length (vals v0)) + 1 - 1)%Z in * by (rewrite vals_length; lia).
+  rewrite popat_mid in *. cbv beta iota zeta in Hr |- *. cbn [kw_get] in Hr |- *.
+  destruct (check_unit (V x)) as [x'|] eqn:Ex; cbn [option_map] in Hr |- *; [|exfalso; apply Hr; reflexivity].
+  apply check_unit_Some in Ex. destruct Ex as [[= <-] _].
+  set (m0 := ml_with_midext m x) in *.
+  assert (Hok0 : mid_set_ok m0 = true) by exact Hok.
+  destruct (andthen (m_set_spread_params m0 (vals v0 ++ rest) []) (fun m1 a1 => m_set_distribution_params m1 a1 [])) as [m' [r|]] eqn:Ech;
+    [|exfalso; apply Hr; reflexivity]. cbn [fst snd]. clear Hr.
+  assert (Hlen0 : length v0 = length (mid_spread_items m ++ u_dist_items ei)) by lia.
+  unfold mid_spread_items in Hlen0. fold ei ec nc in Hlen0. rewrite HsymL in Hlen0.
+  destruct (ml_mixing m) as [cur|] eqn:Emix.
+  - (* with mixing *)
+    destruct (m_chain_inv_mix m0 _ [] m' r cur Hok0 Emix Ech)
+      as (split & glob & qI & qC & mix & qE & qLi & qLe & qLn & m2 & dsplit & dglob & ikw & ckw & dsi & Hc).
+    cbv zeta in Hc. change (ml_ei m0) with ei in Hc. change (ml_ec m0) with ec in Hc. change (ml_nc m0) with nc in Hc.
+    change (ml_symL m0) with (ml_symL m) in Hc. rewrite HsymL in Hc.
+    destruct Hc as (Hu & HqI & HqC & Hmx & HqLi & HqLe & HqLn & HuD & Hsk & Hdp & Hei' & (dsc & Hec' & Hecok) & (dsn & Hnc' & Hncok) & Hmix' & Hd' & Hs' & Hb').
+    rewrite unflatten_nil in Hu, HuD. injection Hu as <- <-. injection HuD as <- <-.
+    rewrite obj_kwargs_nil, side_kwargs_nil in Hsk. injection Hsk as <- <-. rewrite !obj_kwargs_nil in *.
+    rewrite !app_length, !pre_length in Hlen0. unfold m_mixing_item in Hlen0. rewrite Emix in Hlen0. cbn [length] in Hlen0. rewrite HTnc in Hlen0.
+    cbn [kw_get] in Hmx.
+    rewrite skipn_skipn in Hdp.
+    rewrite plan_none_prefix in HqI by lia.
+    rewrite skipn_vals_app in HqC by (rewrite ?HTnc, ?HLnc; lia).
+    rewrite skipn_vals_app in Hmx by (rewrite ?HTnc, ?HLnc; lia).
+    rewrite skipn_vals_app in HqLi by (rewrite ?HTnc, ?HLnc; lia).
+    rewrite skipn_vals_app in HqLe by (rewrite ?HTnc, ?HLnc; lia).
+    rewrite skipn_vals_app in HqLn by (rewrite ?HTnc, ?HLnc; lia).
+    rewrite skipn_vals_app in Hdp by (rewrite ?HTnc, ?HLnc; lia).
+    rewrite plan_none_prefix in HqC, HqLi, HqLe, HqLn, Hdp by (rewrite skipn_length, ?HTnc, ?HLnc, ?HLec; lia).
+    apply all_unit_vals_inv in HqI, HqC, HqLi, HqLe, HqLn.
+    rewrite ?HTnc, ?HLnc, ?HLec in HqC, Hmx, HqLi, HqLe, HqLn, Hdp.
+    set (nT := length (u_tumor_items ei)) in *. set (nL := length (u_lnl_items ei)) in *. set (nD := length (u_dist_items ei)) in *.
+    rewrite ?HLnc in HqLn, Hdp. rewrite ?HLec in HqLe.
+    rewrite (skipn_cons_nth v0 (nT + nT) 0%Qc) in Hmx by lia. cbn [vals map app hd_error val_or] in Hmx.
+    apply check_unit_Some in Hmx. destruct Hmx as [[= Hmixv] _].
+    assert (HlD : length (vals (firstn nD (skipn (nT + nT + 1 + nL) v0))) = nD)
+      by (rewrite vals_length, firstn_length, skipn_length; lia).
+    destruct (dists_put_spec _ _ _ _ Hdp HlD) as (qD & HuD & HiD & _). rewrite unwrap_vals in HuD. injection HuD as <-.
+    assert (Hnames' : mid_names_ok m' = true).
+    { apply (mid_names_ok_final m0 m' qI qLi dsi qE qLe dsc qC qLn dsn (vals (firstn nD (skipn (nT + nT + 1 + nL) v0))) Hok0); try assumption.
+      rewrite Hs'. symmetry. exact HsymL. }
+    rewrite (m_got_spec m' Hnames'). cbn [option_map].
+    destruct (leaf_after_items ei qI qLi dsi) as (I1 & I2 & I3); [subst qI; rewrite firstn_length; fold nT; lia | subst qLi; rewrite firstn_length, skipn_length; fold nL; lia|].
+    destruct (leaf_after_items nc qC qLn dsn) as (N1 & _ & _); [subst qC; rewrite firstn_length, skipn_length, HTnc; fold nT; lia | subst qLn; rewrite firstn_length, skipn_length, HLnc; fold nL; lia|].
+    unfold mid_items. rewrite Hmix', Hs', HsymL, Emix. unfold m_mixing_item, m_midext_item. rewrite Hmix', Emix, Hd'.
+    fold (leaf_after ei qI qLi dsi) in Hei'. fold (leaf_after nc qC qLn dsn) in Hnc'. rewrite Hei', Hnc', I1, I2, I3, N1, HiD.
+    fold ei nc. cbn [ml_midext m0 ml_with_midext].
+    split; f_equal.
+    + rewrite !map_app, !pre_vals, !map_snd_combine by (rewrite map_length; subst; rewrite ?firstn_length, ?skipn_length, ?HTnc; fold nT nL nD; lia).
+      cbn [map snd]. subst qI qC qLi mix.
+      rewrite <- (decomp5 v0 nT nT nL nD Hlen0) at 6. rewrite <- !app_assoc. reflexivity.
+    + rewrite !map_app, !pre_keys, !map_fst_combine by (rewrite map_length; subst; rewrite ?firstn_length, ?skipn_length, ?HTnc; fold nT nL nD; lia).
+      reflexivity.
+  - admit.
+Admitted.
